@@ -2,6 +2,8 @@ SPECIFICATION Spec
 CONSTANTS
   MaxDepth = 2
   MaxTens = 5
+  Judge = TRUE
+  Record = FALSE
   Dev = "netself"
 VIEW view
 INVARIANT PlainPureInv
